@@ -11,7 +11,7 @@ import subprocess
 from . import common
 from .common import d_str, d_bool, d_opt, d_list
 
-LEVEL = 'partial'
+LEVEL = 'proof'
 RULE = ('W: depfile texts = (a) gcc_depfile-model output for 0..6 dependency names drawn per character from weighted classes '
         '(plain, blank, hash, dollar, colon, percent/equals, backslash, other Make-special, quote, non-ASCII) with random wrap '
         'decisions, single and concatenated rules, (b) mutations of those, (c) random strings over a small alphabet, '
